@@ -1039,8 +1039,69 @@ struct DriverT {
     }
   }
 
+  // chains of prefix edits on one path: a node's prefix is split (the split-created upper node keeps what is
+  // left of the source prefix word), later its two-child parent collapses into it (prepend), later it
+  // collapses into the node below (prepend again), with random prefix bytes and every admissible choice
+  // of the three divergence positions a < c < b; long keys (9..16 bytes) for byte-string keys so that
+  // prefix lengths sum up to the capacity.  Directed at key_prefix::cut/prepend and the split
+  // constructor working on each other's results (seed c01c).
+  void gen_splitcol() {
+    const std::size_t len = kIsKv ? 9 + rng.below(8) : 8;
+    for (int round = 0; round < 6; ++round) {
+      Bytes base(len);
+      for (auto& x : base) x = static_cast<std::uint8_t>(rng.below(256));
+      if constexpr (!kIsKv) {
+        // integer keys: keep the first bytes shared with earlier rounds sometimes (deeper trees)
+        if (round > 0 && rng.chance(50)) base[0] = 0;
+      }
+      auto var = [&](std::size_t pos) {
+        Bytes k = base;
+        k[pos] = static_cast<std::uint8_t>(k[pos] + 1 + rng.below(255));
+        for (std::size_t t = pos + 1; t < len; ++t)
+          if (rng.chance(30)) k[t] = static_cast<std::uint8_t>(rng.below(256));
+        return k;
+      };
+      const std::size_t a = rng.below(std::min<std::size_t>(6, len - 3));
+      const std::size_t b = std::min(len - 1, a + 2 + rng.below(7));  // N's prefix: bytes a+1 .. b-1 (<= 7)
+      if (b < a + 2) continue;
+      const std::size_t c = a + 1 + rng.below(b - a - 1);               // split position inside N's prefix
+      const Bytes X = var(a), Y = var(b), K = var(c), K2 = var(c);
+      auto step = [&](int what, const Bytes& k) {
+        if (what == 0)
+          try_insert(k);
+        else
+          try_remove(k);
+        for (const auto& q : {base, X, Y, K, K2}) do_get(q);
+      };
+      // R{X, N{base, Y}}
+      if (rng.chance(50)) {
+        step(0, X);
+        step(0, base);
+        step(0, Y);
+      } else {
+        step(0, base);
+        step(0, X);
+        step(0, Y);
+      }
+      step(0, K);   // splits N's prefix: S{K, N}
+      step(1, X);   // R collapses into S (prepend into the split-created node)
+      if (rng.chance(50)) do_scans(6);
+      step(0, K2);  // another child of S (or a further split)
+      step(1, K2);
+      step(1, K);   // S collapses into N (prepend into the cut node)
+      step(0, X);   // split the merged prefix again at a
+      step(1, Y);   // N dissolves: its remaining leaf moves up
+      step(0, Y);
+      step(1, base);
+      if (rng.chance(50)) do_scans(6);
+      if (rng.chance(50)) {
+        for (const auto& q : {X, Y, K}) step(1, q);
+      }
+    }
+  }
+
   void run_history(int which, long nops) {
-    static const char* names[] = {"dense", "sparse", "deep", "words", "walker", "clear", "tiny", "slots", "bytes"};
+    static const char* names[] = {"dense", "sparse", "deep", "words", "walker", "clear", "tiny", "slots", "bytes", "splitcol"};
     reset(names[which]);
     switch (which) {
       case 0: gen_dense(nops); break;
@@ -1051,6 +1112,7 @@ struct DriverT {
       case 5: gen_clear_reuse(nops); break;
       case 7: gen_slots(); break;
       case 8: gen_bytes(); break;
+      case 9: gen_splitcol(); break;
       default: gen_tiny(); break;
     }
     // final sweep: get of every key in the pool happened during mix; finish with a drain
@@ -1149,7 +1211,7 @@ int main(int argc, char** argv) {
       std::fclose(in);
     } else {
       for (long h = 0; h < histories; ++h) {
-        d.run_history(static_cast<int>(h % 9), nops);
+        d.run_history(static_cast<int>(h % 10), nops);
         if (faults) d.do_length_errors();
       }
     }
